@@ -17,8 +17,7 @@ validity of a byte string (`bytes.decode('utf8')`).
 
 Not modelled: `type_rule_overrides` (AccountDescriptorRepository); values that Python accepts by duck typing
 although no SDK documentation offers them (a `str`, `dict`, `tuple` or `bytes` where a list is expected; a
-`list`/`dict` whose `len()` happens to equal the size of a byte array); shadowing of `sort` inside a nested
-dictionary. Core Lean only.
+`list`/`dict` whose `len()` happens to equal the size of a byte array). Core Lean only.
 -/
 import SymbolVerif.Model.Codec.Render
 import SymbolVerif.Model.Sdk.Ids
@@ -135,9 +134,6 @@ def endsWith (s suffix : String) : Bool := suffix.toList.reverse.isPrefixOf s.to
 
 /-- value-carrying members (those with a property and a private attribute), in layout order -/
 def carrying (d : StructDef) : List Field := d.fields.filter (·.kind.carries)
-
-def reservedNames (d : StructDef) : List String :=
-  d.fields.filterMap fun f => match f.kind with | .reserved .. => some f.name | _ => none
 
 def computedNames (d : StructDef) : List String :=
   d.fields.filterMap fun f => match f.kind with | .sizeRef .. => some (f.name ++ "_computed") | _ => none
@@ -431,7 +427,8 @@ def freshMembers (S : Schema) (ty : String) : Except E (List (String × Val)) :=
   | _ => .error (.schema "not a struct type")
 
 mutual
-/-- `lookup_value(key)` for the member behind `key`: parsing rule, then the type converter -/
+/-- `lookup_value(key)` for the member behind `key`: parsing rule, then the type converter
+    (`hinted = false`: the elements of an array whose element type has no registered array parser) -/
 def coerce (cfg : Config) (top hinted : Bool) (slot : Slot) : DVal → Except E Val
   | .list l =>
     match slot with
